@@ -59,10 +59,11 @@ Record entry := mkEnt {
 Record snapshot := mkSnap {
   ss_index : N; ss_term : N;
   ss_addrs : list N; ss_nonvotings : list N; ss_witnesses : list N;   (* membership ids, sorted *)
-  ss_witness : bool; ss_dummy : bool; ss_has_file : bool }.
+  ss_witness : bool; ss_dummy : bool; ss_has_file : bool;
+  ss_ccid : N (* Membership.ConfigChangeId: carried, never read by the raft core *) }.
 #[export] Instance eta_snap : Settable _ :=
-  settable! mkSnap <ss_index; ss_term; ss_addrs; ss_nonvotings; ss_witnesses; ss_witness; ss_dummy; ss_has_file>.
-Definition empty_snapshot := mkSnap 0 0 [] [] [] false false false.
+  settable! mkSnap <ss_index; ss_term; ss_addrs; ss_nonvotings; ss_witnesses; ss_witness; ss_dummy; ss_has_file; ss_ccid>.
+Definition empty_snapshot := mkSnap 0 0 [] [] [] false false false 0.
 Definition is_empty_snapshot (s : snapshot) : bool := ss_index s =? 0.
 
 Record msg := mkMsg {
